@@ -159,6 +159,22 @@ CLAIMED["C07"] = dict(
          "history-level exactly-once not yet one Lean theorem.",
     design="§8 C07", technique="Lean 4 proof (per-step bookkeeping theorems, ack-names-accepted composition) + differential correspondence")
 
+CLAIMED["C02"] = dict(
+    text="Lean theorems for EVERY instantiation of the external functions (hello decoding, ECDSA verify, ECDH+HKDF, signing): the client "
+         "changes its session key or becomes CONNECTED only if the data decoded as a server hello whose signed payload verifies under "
+         "the pinned key, and then key and token are those of that payload (C02_client_key_only_if_verified); an invalid signature "
+         "gives DISCONNECTED with the key untouched, a decode failure leaves the state untouched (C02_bad_hello_no_key); the server "
+         "calls _onConnect only while processing a datagram that AES-GCM opened under the connection's key and that carries a "
+         "CHALLENGE_RESP with the token of the temp-pool entry (C02_promote_only_on_proof, for every datagram, state and message list); "
+         "under the explicit honest-party laws (signature verifies, ECDH agrees, encodings round-trip) both ends hold the same key and "
+         "token, the client is CONNECTED and the server promotes exactly once (C02_honest_agree). Model tied to connection.py/context.py "
+         "by recorded differentials of real three-way handshakes (real P-256/ECDSA/ECDH/AES-GCM) under 14 attack scripts, with an "
+         "independent signature re-verification and token check in the monitor.",
+    note=TRUST + "EUF-CMA/ECDH secrecy assumed outside Lean; hello decoding is a parameter (C14 covers its safety); crypto results enter the "
+         "model as oracle values recorded from the real run (the model decides whether they are consulted), so a defect INSIDE verify/"
+         "ecdh is visible only to the monitor; cases cannot be re-executed bit for bit (fresh keys, random signatures).",
+    design="§8 C02", technique="Lean 4 proof (handler case analysis, event provenance through the receive path) + recorded differential correspondence")
+
 REASON_PENDING = "model and theorems for this property are not built yet in this revision (planned, see DESIGN.md §13); not claimed until its check exists"
 
 def main():
